@@ -12,6 +12,7 @@ EvalF(x, d) ==
   CASE x.k = "none" -> TRUE
     [] x.k = "eq"   -> x.f \in DOMAIN d /\ d[x.f] = x.c
     [] x.k = "ne"   -> x.f \in DOMAIN d /\ d[x.f] # x.c
+    [] x.k = "nz"   -> x.f \in DOMAIN d /\ d[x.f] # "0"          \* int(field): truthy but not a bool
     [] x.k = "and"  -> EvalF(x.l, d) /\ EvalF(x.r, d)
     [] x.k = "or"   -> EvalF(x.l, d) \/ EvalF(x.r, d)
     [] x.k = "not"  -> ~EvalF(x.a, d)
